@@ -13,7 +13,6 @@ Definition BUFSZ : Z := 4096.            (* bufio default buffer size *)
 
 Definition zfirstn {A} (n : Z) (l : list A) : list A := firstn (Z.to_nat n) l.
 Definition zskipn {A} (n : Z) (l : list A) : list A := skipn (Z.to_nat n) l.
-Definition zeros (n : Z) : bytes := repeat 0%N (Z.to_nat n).
 
 (* ------------------------------------------------------------------ *)
 (* bufio.Reader over bytes.Buffer.  [rd_rest] = all bytes not yet returned, the first
@@ -322,7 +321,7 @@ Inductive res :=
 Definition is_udp (a : addr) : bool := match a with AUdp _ _ => true | _ => false end.
 
 (* one iteration of the message loop on a received (decoded) message:
-   new state, result, frames sent to the agent, connection whose reader was signalled *)
+   new state, result, frames sent to the agent, connection whose reader got a wake-up token *)
 Definition serv_msg (s : sess) (m : msg) : sess * res * list msg * option nat :=
   if negb (s_alive s) then (s, RNone, [], None)
   else match m with
@@ -358,7 +357,8 @@ Definition serv_msg (s : sess) (m : msg) : sess * res * list msg * option nat :=
   end.
 
 (* agentConnection.Read with a buffer of n >= 1 bytes and a deadline, nothing arriving
-   while it waits *)
+   while it waits: bytes if any are buffered, else io.EOF if closed, else it waits on
+   [in] (a stale wake-up token only makes it look again) until the deadline *)
 Definition vc_read (s : sess) (c : nat) (n : Z) : sess * res :=
   let v := conn_at s c in
   match vc_buf v with
@@ -400,19 +400,11 @@ Definition step (s : sess) (a : act) : sess * res * list msg :=
       let v := conn_at s c in
       match vc_buf v, vc_closed v with
       | [], false =>
-        (* the reader is parked in select; m is processed; then the reader runs *)
-        let '(s', _, fs, sg) := recv_msg s m in
-        let fs' := flat_map wire_out fs in
-        match sg with
-        | Some i =>
-          if Nat.eqb i c then
-            let v' := conn_at s' c in
-            (mkSess (upd (s_conns s') c (mkVc (vc_l v') (vc_r v') (zskipn n (vc_buf v')) (vc_closed v')))
-                    (s_reg s') (s_alive s') (s_nudp s'),
-             RData (zfirstn n (vc_buf v')), fs')
-          else (s', (if vc_closed (conn_at s' c) then REof else RTimeout), fs')
-        | None => (s', (if vc_closed (conn_at s' c) then REof else RTimeout), fs')
-        end
+        (* the reader waits in select; m is processed (receive leaves a wake-up token,
+           Close closes the channel); the reader looks at the buffer again: bytes if
+           there are any now, io.EOF if closed, else it keeps waiting until the deadline *)
+        let '(s1, _, fs, _) := recv_msg s m in
+        let '(s', r) := vc_read s1 c n in (s', r, flat_map wire_out fs)
       | _, _ =>
         (* Read returns at once; m is processed afterwards *)
         let '(s1, r) := vc_read s c n in
@@ -445,37 +437,38 @@ End Run.
 Definition ideal_wire (m : msg) : option msg := Some m.
 
 (* ------------------------------------------------------------------ *)
-(* One agentConnection and the goroutine reading it, step by step (connection.go):
-   receive = lock; append; NON-BLOCKING send on the unbuffered channel [in];
+(* One agentConnection and the goroutine reading it, step by step (connection.go), at
+   the granularity of the mutex-protected sections and channel operations:
+   receive = lock; if closed return; append; NON-BLOCKING send on [in] (capacity 1): the
+             token is stored unless one is already pending;
    Close   = lock; closed = true; close(in);
-   Read    = lock; if buff is non-empty copy and return; unlock;            (PIdle)
-             -- window: buff was seen empty, the select is not yet entered -- (PChecked)
-             select on [in]: a value => lock, copy, return (possibly 0 bytes) (PParked/PWoken)
-                             closed  => return io.EOF WITHOUT looking at buff. *)
-Inductive rpc := PIdle | PChecked | PParked | PWoken | PDone.
-Record cst := mkC { c_buf : bytes; c_closed : bool; c_pc : rpc; c_got : bytes }.
+   Read    = loop { lock; buff non-empty => copy, return;                      (PIdle)
+                    closed => return io.EOF;  unlock;
+                    receive from [in]: a pending token or a closed channel let it
+                    through, otherwise it blocks }                              (PWait) *)
+Inductive rpc := PIdle | PWait | PDone.
+Record cst := mkC { c_buf : bytes; c_closed : bool; c_tok : bool; c_pc : rpc; c_got : bytes }.
 Inductive cev := ERecv (p : bytes) | EClose | EReader (n : Z).
 
-Definition cst0 : cst := mkC [] false PIdle [].
+Definition cst0 : cst := mkC [] false false PIdle [].
 
 Definition cstep (s : cst) (e : cev) : cst :=
   match e with
   | ERecv p =>
       if c_closed s then s
-      else mkC (c_buf s ++ p) false
-               (match c_pc s with PParked => PWoken | pc => pc end)   (* nobody waiting: signal dropped *)
-               (c_got s)
-  | EClose => mkC (c_buf s) true (c_pc s) (c_got s)
+      else mkC (c_buf s ++ p) false true (c_pc s) (c_got s)
+  | EClose => mkC (c_buf s) true (c_tok s) (c_pc s) (c_got s)
   | EReader n =>
       match c_pc s with
       | PIdle =>
         match c_buf s with
-        | [] => mkC [] (c_closed s) PChecked (c_got s)
-        | _ :: _ => mkC (zskipn n (c_buf s)) (c_closed s) PIdle (c_got s ++ zfirstn n (c_buf s))
+        | _ :: _ => mkC (zskipn n (c_buf s)) (c_closed s) (c_tok s) PIdle (c_got s ++ zfirstn n (c_buf s))
+        | [] => mkC [] (c_closed s) (c_tok s) (if c_closed s then PDone else PWait) (c_got s)
         end
-      | PChecked => mkC (c_buf s) (c_closed s) (if c_closed s then PDone else PParked) (c_got s)
-      | PParked => mkC (c_buf s) (c_closed s) (if c_closed s then PDone else PParked) (c_got s)
-      | PWoken => mkC (zskipn n (c_buf s)) (c_closed s) PIdle (c_got s ++ zfirstn n (c_buf s))
+      | PWait =>
+        if c_tok s then mkC (c_buf s) (c_closed s) false PIdle (c_got s)
+        else if c_closed s then mkC (c_buf s) true false PIdle (c_got s)
+        else s                                                     (* still blocked *)
       | PDone => s
       end
   end.
@@ -489,11 +482,4 @@ Fixpoint accepted (closed : bool) (evs : list cev) : bytes :=
   | ERecv p :: r => if closed then accepted closed r else p ++ accepted closed r
   | EClose :: r => accepted true r
   | EReader _ :: r => accepted closed r
-  end.
-
-(* a schedule in which no receive falls into the window *)
-Fixpoint window_free (s : cst) (evs : list cev) : Prop :=
-  match evs with
-  | [] => True
-  | e :: r => (match e, c_pc s with ERecv _, PChecked => False | _, _ => True end) /\ window_free (cstep s e) r
   end.
